@@ -2,6 +2,8 @@ import Driver.Wire
 import Marwood.Num.Arith
 import Marwood.Num.Cmp
 import Marwood.Spec.Rat
+import Marwood.Num.Eqv
+import Marwood.Spec.NumEqv
 /-!
 Driver commands of the Num area (C08, C09).
 
@@ -9,6 +11,12 @@ Driver commands of the Num area (C08, C09).
 * `scm <proc> <a1> … <an>`                — model of the Scheme-level procedure
 * `spec <request…> => <response…>`        — judgement of an answer against ℚ (`conforms`,
   `violates <why>`, `outside <why>`)
+* `eqv <a> <b>`      — C14: model (`Eqv.eqvNum`, the number arm of `Vm::eqv`) of the eight forms
+  `(eqv? a b)`, `(equal? a b)`, `(equal? (list 1 a) (list 1 b))`, `(equal? (vector a) (vector b))`,
+  `(memv a (list b))`, `(member a (list b))`, `(assv a (list (cons b 1)))`, `(assoc a (list (cons b 1)))`
+  as truth values: `ok` followed by eight `b0|b1`
+* `eqvspec <a> <b>`  — the same eight forms with the leaf test `NumSpec.eqvSpecB` (R7RS 6.1);
+  `outside nan-nan` when both operands are NaN (unspecified by R7RS)
 
 Answers: `ok <num>` | `ok b0|b1` | `err <class>` | `panic`; NaN results are canonical.
 -/
@@ -267,8 +275,35 @@ def specCmd (args : List String) : Option String := do
     pure (judge d r).show
   | _ => none
 
+/-! ## C14: `eqv?` / `equal?` / `memv` … on two numbers -/
+
+/-- the eight forms of the stream `eqv-numbers`, each through its own definition, for a leaf test -/
+def eqvForms (test : Marwood.Num → Marwood.Num → Bool) (a b : Marwood.Num) : List Bool :=
+  let eq (x y : Marwood.Num) : Bool := NTree.equal test (.num x) (.num y)
+  [ test a b,
+    eq a b,
+    NTree.equal test (NTree.list [.num (.fix 1), .num a]) (NTree.list [.num (.fix 1), .num b]),
+    NTree.equal test (.vec [.num a]) (.vec [.num b]),
+    memTest test a b,
+    memTest eq a b,
+    assTest test a b,
+    assTest eq a b ]
+
+def showForms (bs : List Bool) : String :=
+  "ok" ++ String.join (bs.map fun b => if b then " b1" else " b0")
+
+def eqvCmd (spec : Bool) (a b : String) : Option String := do
+  let a ← decNum a
+  let b ← decNum b
+  if spec then
+    if bothNaN a b then pure "outside nan-nan"
+    else pure (showForms (eqvForms eqvSpecB a b))
+  else pure (showForms (eqvForms Eqv.eqvNum a b))
+
 def handle (cmd : String) (args : List String) : Option String :=
   match cmd, args with
+  | "eqv", [a, b] => eqvCmd false a b
+  | "eqvspec", [a, b] => eqvCmd true a b
   | "num", op :: rest => modelNum op rest
   | "scm", proc :: rest => do
     let xs ← decArgs rest
